@@ -30,6 +30,13 @@ theorem C18_next_free (names : List Name) (existsOnDisk : Name → Bool) (fuel :
   obtain ⟨h1, h2⟩ := nextName_free h
   exact ⟨(taken_false h1).1, (taken_false h1).2, h2⟩
 
+/-- **C18** (the counter loop terminates): on a disk where the existing names are a finite list
+`ex`, `next_name` finds a free name after at most `|names| + |ex| + 1` candidates — for every
+requested name, whatever has been handed out before. -/
+theorem C18_next_name_terminates (names ex : List Name) (name : Name) :
+    ∃ r, nextName names (fun x => ex.contains x) (names.length + ex.length + 1) name = some r :=
+  nextName_terminates names ex name
+
 /-! Non-vacuity: the same file name requested three times next to an existing `t.md-1`. -/
 example : nextNames (fun n => n == "t.md-1".toList) 10 [] ["t.md".toList, "t.md".toList, "t.md".toList]
     = some ["t.md".toList, "t.md-2".toList, "t.md-3".toList] := by
